@@ -12,7 +12,7 @@ from . import common
 
 ID = "C02"
 RUNS = {"quick": 9000, "thorough": 400000}
-TIME = {"quick": 75, "thorough": 1500}
+TIME = {"quick": 150, "thorough": 1500}
 RULE_TEXT = (
     "case = seeded (profile, STV|IRV|SequentialRCV, m, quota, simultaneous, transfer, tiebreak) executed under 4 schedules "
     "(asc, desc, keyed, seeded) of the random seam; every recorded round compared with RefSTV. non-trivial = at least one "
